@@ -11,8 +11,6 @@ import (
 	"os"
 	"strings"
 	"time"
-
-	"github.com/dekarrin/rosed"
 )
 
 func main() {
@@ -77,23 +75,4 @@ func cmdRun(args []string) {
 	}
 	must(rw.Flush())
 	rf.Close()
-}
-
-// cmdSweep prints the 14 predicate bits of every code point and of some
-// out-of-range values, one "value bits" pair per line.
-func cmdSweep(args []string) {
-	fs := flag.NewFlagSet("sweep", flag.ExitOnError)
-	out := fs.String("out", "sweep.txt", "output")
-	fs.Parse(args)
-	f, err := os.Create(*out)
-	must(err)
-	w := bufio.NewWriter(f)
-	for r := rune(0); r <= 0x10FFFF; r++ {
-		fmt.Fprintf(w, "%d %d\n", r, rosed.VerifClassBits(r))
-	}
-	for _, r := range []rune{-1, -2, -128, -0x10FFFF, 0x110000, 0x110001, 0x7FFFFFFF, -0x80000000, 0x200000} {
-		fmt.Fprintf(w, "%d %d\n", r, rosed.VerifClassBits(r))
-	}
-	must(w.Flush())
-	f.Close()
 }
